@@ -5,7 +5,7 @@ import logging
 import weakref
 from typing import TYPE_CHECKING
 
-from claripy import Or, backends
+from claripy import Or, backends, false
 from claripy.ast import Base
 from claripy.errors import BackendError, UnsatError
 
@@ -284,8 +284,12 @@ class CompositeFrontend(ConstrainedFrontend):
         for names, set_constraints in split:
             if names == {"CONCRETE"}:
                 try:
-                    if any(backends.concrete.convert(c) is False for c in set_constraints):
+                    false_constraints = [c for c in set_constraints if backends.concrete.convert(c) is False]
+                    if false_constraints:
                         self._unsat = True
+                        # no child holds a constraint without variables: keep it in .constraints so that
+                        # combine(), pickling and users of .constraints still see it
+                        child_added += false_constraints
                 except BackendError:
                     unsure.extend(set_constraints)
             else:
@@ -527,4 +531,10 @@ class CompositeFrontend(ConstrainedFrontend):
         return True, merged
 
     def split(self):
-        return [s.branch() for s in self._solver_list]
+        parts = [s.branch() for s in self._solver_list]
+        if self._unsat:
+            # the concrete False that made this solver unsatisfiable lives in no child
+            unsat = self._template_frontend.blank_copy()
+            unsat.add([false()])
+            parts.append(unsat)
+        return parts
